@@ -137,6 +137,13 @@ impl AsyncWrite for PipeEnd {
         if g.closed {
             return Poll::Ready(Err(io::Error::new(io::ErrorKind::BrokenPipe, "write after shutdown")));
         }
+        // some directions take only part of what is offered (a short write, as any socket may): the cap follows from
+        // the direction's schedule so that a case always behaves the same
+        let cap = match g.schedule.first() {
+            Some(b) if *b % 4 == 3 => 1 + (*b as usize) * 8,
+            _ => usize::MAX,
+        };
+        let data = &data[..data.len().min(cap)];
         g.buf.extend(data.iter().copied());
         g.written += data.len() as u64;
         if g.head.len() < 256 {
